@@ -177,6 +177,9 @@ func (e *routesEngine) observe(names []string, run func(env EnvType) error) stri
 	if err := nscore.LoadInput(env); err != nil {
 		return "setup-error"
 	}
+	if err := maybeDecoy(); err != nil { // another environment, initialised after this one
+		return "setup-error"
+	}
 	rerr := run(env)
 	var b strings.Builder
 	if rerr != nil {
